@@ -227,6 +227,147 @@ def explore_property(acc, kind, attr, std, alias, values, layer, bare_start=Fals
     return len(seen)
 
 
+def tour_property(acc, kind, attr, std, alias, values, layer):
+    """
+    Transition tour: the same closed state graph, but walked on ONE live object.  Every (state, operation) pair of
+    the graph is executed at least once in a single uninterrupted history (untaken operations first, else the
+    shortest path through the model to a state that still has some), the model following in lock-step.  State that
+    an object could keep outside its mapping (caches, counters, "already serialized" flags) survives here, which the
+    per-transition check - a fresh object per transition - cannot see.
+    """
+    other = KINDS[kind][1]
+    extra_key = FOREIGN_ALIAS.get(std) if not alias else None
+    if extra_key == other:
+        extra_key = None
+    ops = ops_for(std, alias, other, values, extra_key)
+    # the model graph reachable from the empty mapping
+    succ = {}
+    todo = [()]
+    while todo:
+        st = todo.pop()
+        if st in succ:
+            continue
+        succ[st] = [m_apply(st, op, std, alias)[0] for op in ops]
+        todo.extend(n for n in succ[st] if n not in succ)
+    untaken = {st: list(range(len(ops))) for st in succ}
+    remaining = sum(len(v) for v in untaken.values())
+    obj = KINDS[kind][0]()
+    cur = ()
+    hist = []
+    steps = 0
+
+    def step(i):
+        nonlocal cur, steps
+        op = ops[i]
+        new_state, want = m_apply(cur, op, std, alias)
+        got = r_apply(obj, op, attr)
+        hist.append(list(op))
+        steps += 1
+        problem = None
+        if got != want:
+            problem = ("return value / exception differs from the dictionary model", want, got)
+        else:
+            items = list(obj.items())
+            if items != list(new_state):
+                problem = ("mapping content or order differs from the model", list(new_state), items)
+            else:
+                try:
+                    view = getattr(obj, attr)
+                except core.WatchdogTimeout:
+                    raise
+                except BaseException as e:
+                    view = type(e).__name__
+                want_view = dict(new_state).get(resolve(new_state, std, alias))
+                if view != want_view:
+                    problem = ("attribute does not read the standard key, else the alias, else None", want_view, view)
+                elif new_state != cur or steps % 16 == 0:
+                    # serialization and equality against an object built directly from the model state
+                    fresh = build(kind, new_state)
+                    s1, s2 = outcome_str(obj), outcome_str(fresh)
+                    if s1 != s2:
+                        problem = ("serialization differs from that of an object built directly from the same content", s2, s1)
+                    elif outcome_eq(obj, fresh) != ("ok", True, False):
+                        problem = ("object does not compare equal to one built directly from the same content", ("ok", True, False), outcome_eq(obj, fresh))
+        cur = new_state
+        return problem
+
+    problem = None
+    while remaining and problem is None:
+        core.guard_cheap(acc, {"kind": "tour", "object": kind, "attr": attr, "std": std, "alias": alias, "values": list(values), "history": hist[-40:]})
+        if untaken[cur]:
+            i = untaken[cur].pop(0)
+            remaining -= 1
+            problem = step(i)
+            continue
+        # breadth-first search in the model for the nearest state with untaken operations
+        prev = {cur: None}
+        queue = [cur]
+        target = None
+        while queue and target is None:
+            nq = []
+            for st in queue:
+                for i, n in enumerate(succ[st]):
+                    if n not in prev:
+                        prev[n] = (st, i)
+                        if untaken[n]:
+                            target = n
+                            break
+                        nq.append(n)
+                if target is not None:
+                    break
+            queue = nq
+        if target is None:
+            break  # the rest is not reachable from here (never happens in a strongly connected graph)
+        path = []
+        st = target
+        while prev[st] is not None:
+            path.append(prev[st][1])
+            st = prev[st][0]
+        for i in reversed(path):
+            problem = step(i)
+            if problem is not None:
+                break
+    acc.count("tour_steps", steps)
+    acc.count("transitions", steps)
+    acc.count("evaluations", steps)
+    acc.outcome("transition tour on one live object")
+    if problem is not None:
+        case = {"kind": "tour", "object": kind, "attr": attr, "std": std, "alias": alias, "values": list(values), "history": hist}
+        acc.violation("transition tour on one live object: " + problem[0], case, problem[1], problem[2], signature=("tour", problem[0], kind))
+    elif remaining:
+        raise core.MachineryError(f"transition tour left {remaining} transitions untaken")
+    acc.layer(layer + " (tour)", states=len(succ), steps=steps, every_transition_taken=True)
+
+
+def replay_tour(case):
+    """Replays a recorded tour history on a fresh object; returns failures."""
+    kind, attr, std, alias = case["object"], case["attr"], case["std"], case["alias"]
+    obj = KINDS[kind][0]()
+    cur = ()
+    for op in case["history"]:
+        op = tuple(op)
+        new_state, want = m_apply(cur, op, std, alias)
+        got = r_apply(obj, op, attr)
+        cur = new_state
+        if got != want:
+            return [{"clause": "transition tour on one live object: return value / exception differs from the dictionary model", "expected": core.jsonable(want), "observed": core.jsonable(got)}]
+        if list(obj.items()) != list(cur):
+            return [{"clause": "transition tour on one live object: mapping content or order differs from the model", "expected": core.jsonable(list(cur)), "observed": core.jsonable(list(obj.items()))}]
+    fresh = build(kind, cur)
+    want_view = dict(cur).get(resolve(cur, std, alias))
+    try:
+        view = getattr(obj, attr)
+    except BaseException as e:
+        view = type(e).__name__
+    if view != want_view:
+        return [{"clause": "transition tour on one live object: attribute does not read the standard key, else the alias, else None", "expected": core.jsonable(want_view), "observed": core.jsonable(view)}]
+    if outcome_str(obj) != outcome_str(fresh):
+        return [{"clause": "transition tour on one live object: serialization differs from that of an object built directly from the same content", "expected": core.jsonable(outcome_str(fresh)), "observed": core.jsonable(outcome_str(obj))}]
+    if outcome_eq(obj, fresh) != ("ok", True, False):
+        return [{"clause": "transition tour on one live object: object does not compare equal to one built directly from the same content", "expected": "equal", "observed": core.jsonable(outcome_eq(obj, fresh))}]
+    return []
+
+
 def check_transition(kind, attr, std, alias, state, op, bare=False):
     fails = []
 
@@ -566,6 +707,8 @@ def check_case(case):
     if case["kind"] == "property":
         state = tuple(tuple(i) for i in case["state"])
         return check_transition(case["object"], case["attr"], case["std"], case["alias"], state, tuple(case["op"]), case.get("bare", False))[0]
+    if case["kind"] == "tour":
+        return replay_tour(case)
     if case["kind"] == "smchart":
         op = case["op"]
         op = tuple(op)
@@ -584,6 +727,9 @@ def explore_shard(acc, shard):
         if alias:
             acc.sample(layer, {"object": okind, "attr": attr, "std": std, "alias": alias, "values": list(values), "model_states": n})
         acc.count("properties_explored")
+    elif kind == "tour":
+        _, okind, attr, std, alias, values = shard
+        tour_property(acc, okind, attr, std, alias, values, f"{okind}.{attr}")
     elif kind == "smchart":
         _, values, how, start = shard
         explore_smchart(acc, values, how, start)
@@ -603,6 +749,9 @@ def explore(run):
             shards.append(("prop", okind, attr, std, alias, values))
             if run.thorough() or alias:
                 shards.append(("prop", okind, attr, std, alias, values2))
+            # transition tour on one live object: every aliased property, and (quick) one plain property per class
+            if alias or run.thorough() or attr in ("title", "stepstype", "credit"):
+                shards.append(("tour", okind, attr, std, alias, values))
     svals = ("p", "") if not run.thorough() else ("p", "q", "")
     shards.append(("smchart", svals, "from_msd", ["a", "b", "c", "d", "e", "f"]))
     shards.append(("smchart", ("p", ""), "blank", [dict.get(SMChart.blank(), k) for k in FIELDS]))
@@ -615,6 +764,7 @@ def explore(run):
         "closed state graphs explored to a fixpoint: for every known property of SMSimfile, SSCSimfile and SSCChart (aliased: stops/FREEZES, bgchanges/ANIMATIONS, notes/NOTES2) "
         "the states are all ordered partial assignments of {standard key, alias key, one unrelated key} to three values, the operations attribute get/set/del, key get/set/del/in on each key, items(); "
         "every (state, operation) pair is executed on a real object built for that state and compared with the dictionary model (result or exception class, ordered items, attribute view, equality and serialization against an object built directly from the model state). "
+        "Transition tour: for every aliased property (thorough: every property) the same graph is walked once more on ONE live object so that every (state, operation) pair occurs in a single uninterrupted history. "
         "SM chart: all states over {values}^6 reachable from blank() and a from_msd chart under attribute/key/lower-case-key/unrelated-key get/set/del/in, setdefault, update, pop, popitem, iteration. "
         "Non-trivial = a state holding at least two of the three keys (properties) / every SM chart state."
     )
@@ -623,6 +773,7 @@ def explore(run):
         "clear() and move_to_end() are outside the statement's operation alphabet and not exercised",
     ]
     core.require(acc.outcomes["attribute access through the alias"] > 0, "alias path not exercised")
+    core.require(acc.outcomes["transition tour on one live object"] > 0, "no transition tour")
     core.require(acc.outcomes["attribute access with both spellings present"] > 0, "both-spellings states not reached")
     core.require(acc.outcomes["attribute access with another class's alias key present"] > 0, "foreign alias key never present")
     core.require(acc.outcomes["attempt to add a key to an SM chart"] > 0, "no add attempt")
